@@ -146,6 +146,13 @@ func runMutant(self, repo, verif, prop string, m mutant) mutResult {
 			}
 		}
 	}
+	if m.Expect == "NONE" { // negative control: behaviour-preserving edit, nothing may fire
+		res.Status = "caught"
+		if len(res.Fired) > 0 {
+			res.Status = "false-alarm"
+		}
+		return res
+	}
 	res.Status = "missed"
 	for _, f := range res.Fired {
 		if strings.HasPrefix(f, m.Expect) {
@@ -189,8 +196,8 @@ func (c *Ctx) selfTest() {
 			fmt.Printf("selftest %s: %s %s %v\n", r.ID, r.Status, r.Note, r.Fired)
 		}
 	}
-	fmt.Printf("selftest: mutants=%d caught=%d missed=%d skipped=%d invalid=%d\n", len(ms), cnt["caught"], cnt["missed"], cnt["skipped"], cnt["invalid"])
-	c.extra["selftest"] = map[string]interface{}{"mutants": len(ms), "caught": cnt["caught"], "missed": cnt["missed"], "skipped": cnt["skipped"], "invalid": cnt["invalid"], "results": results}
+	fmt.Printf("selftest: mutants=%d caught=%d missed=%d false-alarm=%d skipped=%d invalid=%d\n", len(ms), cnt["caught"], cnt["missed"], cnt["false-alarm"], cnt["skipped"], cnt["invalid"])
+	c.extra["selftest"] = map[string]interface{}{"mutants": len(ms), "caught_or_silent_as_expected": cnt["caught"], "missed": cnt["missed"], "false_alarm_on_negative_control": cnt["false-alarm"], "skipped": cnt["skipped"], "invalid": cnt["invalid"], "results": results}
 }
 
 func (c *Ctx) thorough(pd *propDef) {
